@@ -107,17 +107,36 @@ def r2(ctx):
             ctx.check(ok, "C16.R2", RR, "key-from-namespace.%s.%s" % (ct[0], ct[1]), "removal key/bounds derive from: %s" % sorted(names), t["sp"])
     if n < 5:
         raise mir.AnchorMissing("expected >=5 removal calls in remove_replica, found %d" % n)
-    # namespace bounds: end = Excluded(successor of fixed-width ns) or Unbounded
-    for path in ("store::fs::bounds::RecordsBounds::namespace_end", "store::fs::bounds::ByKeyBounds::namespace"):
+    # namespace bounds, evaluated (K6'): [Included(ns, min, min), Excluded(succ(ns), min, min)) or Unbounded when ns has no successor
+    from . import feval as E
+    inl = [x.path for x in f.bodies.values() if x.path.startswith("store::fs::bounds::") and not x.path.endswith("increment_by_one")]
+    for path, order in (("store::fs::bounds::RecordsBounds::namespace", "(%s,[0; _],empty)"), ("store::fs::bounds::ByKeyBounds::namespace", "(%s,empty,[0; _])")):
         b = f.body(path)
         ctx.touch(b)
-        kinds = set()
-        for bi, si, s in b.statements():
-            if s["k"] == "assign" and s["r"][0] == "agg" and s["r"][1][0] == "adt" and s["r"][1][1].endswith("ops::Bound"):
-                kinds.add(s["r"][1][2])
-        inc = [t for _, t in b.calls() if t["f"].get("name") == "increment_by_one"]
-        want = {"Excluded", "Unbounded"} if path.endswith("namespace_end") else {"Included", "Excluded", "Unbounded"}
-        ctx.check(kinds == want and len(inc) == 1, "C16.R2", path, "end-is-excluded-successor-or-unbounded", "bound kinds %s, increment_by_one calls %d" % (sorted(kinds), len(inc)), b.sp)
+        rows = {}
+        for inc in (1, 0):
+            def oracle(kind, name, payload, site, inc=inc):
+                if kind != "call":
+                    return None
+                t, args, it = payload
+                if name == "increment_by_one":
+                    if args[0][0] == "ref":
+                        it.write_loc(args[0][1], E.Tok("succ(%s)" % it.tokname(args[0])))
+                    return E.Int(inc)
+                if name in ("to_bytes", "as_bytes"):
+                    return E.Tok("bytes(%s)" % it.tokname(args[0]))
+                if name == "new" and callee_matches(t, r"Bytes::new"):
+                    return E.Tok("empty")
+                return None
+            try:
+                ret, hp, ev = E.run(f, path, [E.Tok("ns")], {}, oracle, inline=inl)
+                rows[inc] = E.describe(ret, f)
+            except E.Unsupported as e:
+                rows[inc] = "UNSUPPORTED-FORM: %s" % e
+        ty = path.split("::")[-2]
+        want = {1: "%s(Included(%s),Excluded(%s))" % (ty, order % "bytes(ns)", order % "succ(bytes(ns))"), 0: "%s(Included(%s),Unbounded)" % (ty, order % "bytes(ns)")}
+        ctx.check(rows == want, "C16.R2", path, "end-is-excluded-successor-or-unbounded",
+                  "by `namespace has a successor`: %s; spec: %s" % (rows, want), b.sp)
     ib = f.body("store::fs::bounds::increment_by_one")
     ctx.touch(ib)
     ctx.floor("C16.R2", 7)
@@ -248,8 +267,13 @@ def r5(ctx):
     sn = f.body("store::fs::Store::snapshot_owned")
     ctx.touch(sn)
     fl = [bi for bi, t in sn.calls() if t["f"].get("name") == "flush"]
-    br = [bi for bi, t in sn.calls() if t["f"].get("name") == "begin_read"]
-    ctx.check(bool(fl) and bool(br) and sn.dominates(fl[0], br[0]), "C16.R5", sn.path, "flush-before-read-tx", "snapshot_owned flushes before opening the read transaction", sn.sp)
+    def opens_read(t):
+        if t["f"].get("name") == "begin_read":
+            return True
+        return any(t2["f"].get("name") == "begin_read" for p in mir.callee_paths(t) if p in f.bodies and p.startswith("store::fs::") and not p.endswith("::flush")
+                   for hb in f.local_callees(p, depth=2, prefix="store::fs::") for _, t2 in hb.calls())
+    br = [bi for bi, t in sn.calls() if opens_read(t)]
+    ctx.check(bool(fl) and bool(br) and all(sn.dominates(fl[0], x) for x in br), "C16.R5", sn.path, "flush-before-read-tx", "snapshot_owned flushes before opening the read transaction", sn.sp)
     it = f.body("<store::fs::ContentHashesIterator as std::iter::Iterator>::next")
     ctx.touch(it)
     ok = any(t["f"].get("name") == "next" for _, t in it.calls())
